@@ -271,21 +271,21 @@ theorem detExact_after_recreate (h : Hook) (f : Nat → NetAttr → NetAttr) (ne
       subst hk
       exact absurd he hev
 
-theorem cloneMutate_det (stamp k : Nat) (applied : List (Option String)) (fr : List (List Nat × List Nat))
+theorem cloneMutate_det (stamp k : Nat) (applied : List (Option Change)) (fr : List (List Nat × List Nat))
     (j : Nat) (m : Mod) : (cloneMutate stamp k applied fr j m).det = Det.none := by
   unfold cloneMutate
   simp only
   split <;> rfl
 
-def archF (stamp : Nat) (applied : List (Option String)) (fresh : Fresh) : Nat → NetAttr → NetAttr :=
+def archF (stamp : Nat) (applied : List (Option Change)) (fresh : Fresh) : Nat → NetAttr → NetAttr :=
   fun k n => { n with mods := n.mods.mapIdx (cloneMutate stamp k applied (fresh.getD k [])) }
 
-theorem archStep_eq (applied : List (Option String)) (fresh : Fresh) (stamp : Nat) (a : Agent) :
+theorem archStep_eq (applied : List (Option Change)) (fresh : Fresh) (stamp : Nat) (a : Agent) :
     archStep applied fresh stamp a =
       rebuildAll { a with nets := applyHook a.hook (mapEval (archF stamp applied fresh) a.nets),
-                          label := (applied.headD none).getD "None" } := rfl
+                          label := archLabel applied } := rfl
 
-theorem archStep_pre (applied : List (Option String)) (fresh : Fresh) (stamp : Nat) (a : Agent) (hi : Inv a) :
+theorem archStep_pre (applied : List (Option Change)) (fresh : Fresh) (stamp : Nat) (a : Agent) (hi : Inv a) :
     DescOK (desc (archStep applied fresh stamp a)) ∧
     (∀ o ∈ (archStep applied fresh stamp a).opts,
       OptCoherent (archStep applied fresh stamp a).nets (archStep applied fresh stamp a).lrs o) ∧
